@@ -979,9 +979,8 @@ def _mark(buf):
 
 
 def _rebuild(cells, shape, dtstr, writeable):
-    a = ndarray._from_cells(cells, shape, _np.dtype(dtstr))
-    a.flags._writeable = writeable
-    return a
+    # NumPy does not pickle the WRITEABLE flag: an unpickled array owns fresh, writeable data
+    return ndarray._from_cells(cells, shape, _np.dtype(dtstr))
 
 
 def _safe(v):
